@@ -245,7 +245,7 @@ func (c *Check) Finish(rule string) {
 		"violations":  c.nViol,
 	}
 	b, _ := json.MarshalIndent(ev, "", " ")
-	p := filepath.Join(c.verifDir, "evidence", c.ID+".json")
+	p := filepath.Join(c.verifDir, "evidence", c.ID+os.Getenv("VERIF_EVIDENCE_SUFFIX")+".json")
 	_ = os.MkdirAll(filepath.Dir(p), 0o755)
 	if err := os.WriteFile(p, b, 0o644); err != nil {
 		fmt.Fprintln(os.Stderr, "vlib: cannot write evidence:", err)
